@@ -207,5 +207,169 @@ theorem unravel_part (b : Bool) (dims : List ℕ) (keep : List Bool) (hlen : dim
       · simp only [sel, part, unravel, h, if_true, prodSel_eq_prodDims_sel, div_of_lt hp, mod_of_lt hp, h1]
       · simp only [sel, part, unravel, h, if_false, h1]
 
+
+theorem prodSel_compose (dims : List ℕ) (keep1 keep2 : List Bool) :
+    prodSel true dims (composeMask keep1 keep2) = prodSel true (sel true dims keep1) keep2 := by
+  induction dims generalizing keep1 keep2 with
+  | nil => cases keep1 <;> cases keep2 <;> simp [prodSel, sel, composeMask]
+  | cons d ds ih =>
+    cases keep1 with
+    | nil => cases keep2 <;> simp [prodSel, sel, composeMask]
+    | cons k1 k1s =>
+      cases k1
+      · simp [prodSel, sel, composeMask, ih]
+      · cases keep2 with
+        | nil => simp [prodSel, sel, composeMask]
+        | cons k2 k2s => cases k2 <;> simp [prodSel, sel, composeMask, ih]
+
+/-- tracing `keep1ᶜ` after `keep2ᶜ`-within-`keep1` enumerates the traced indices of the composed mask -/
+theorem sum_compose {M : Type*} [AddCommMonoid M] (dims : List ℕ) (keep1 keep2 : List Bool)
+    (h1 : dims.length = keep1.length) (h2 : (sel true dims keep1).length = keep2.length)
+    (g : ℕ → ℕ → M) (a b : ℕ)
+    (ha : a < prodSel true (sel true dims keep1) keep2) (hb : b < prodSel true (sel true dims keep1) keep2) :
+    ∑ t ∈ range (prodSel false dims (composeMask keep1 keep2)),
+        g (ptIndex dims (composeMask keep1 keep2) a t) (ptIndex dims (composeMask keep1 keep2) b t)
+      = ∑ t2 ∈ range (prodSel false (sel true dims keep1) keep2), ∑ t1 ∈ range (prodSel false dims keep1),
+        g (ptIndex dims keep1 (ptIndex (sel true dims keep1) keep2 a t2) t1)
+          (ptIndex dims keep1 (ptIndex (sel true dims keep1) keep2 b t2) t1) := by
+  induction dims generalizing keep1 keep2 g a b with
+  | nil =>
+    cases keep1 with
+    | nil => cases keep2 <;> simp [prodSel, sel, composeMask, ptIndex]
+    | cons k1 k1s => simp at h1
+  | cons d ds ih =>
+    cases keep1 with
+    | nil => simp at h1
+    | cons k1 k1s =>
+      have hl1 : ds.length = k1s.length := by simpa using h1
+      cases k1
+      · -- axis traced in the first step
+        have hsel : sel true (d :: ds) (false :: k1s) = sel true ds k1s := by simp [sel]
+        rw [hsel] at h2 ha hb ⊢
+        have hcm : composeMask (false :: k1s) keep2 = false :: composeMask k1s keep2 := by
+          cases keep2 <;> simp [composeMask]
+        rw [hcm]
+        simp only [prodSel, Bool.false_eq_true, if_false, if_true, one_mul]
+        rw [sum_range_mul]
+        have hL : ∀ q ∈ range d, ∑ r ∈ range (prodSel false ds (composeMask k1s keep2)),
+            g (ptIndex (d :: ds) (false :: composeMask k1s keep2) a (q * prodSel false ds (composeMask k1s keep2) + r))
+              (ptIndex (d :: ds) (false :: composeMask k1s keep2) b (q * prodSel false ds (composeMask k1s keep2) + r))
+            = ∑ t2 ∈ range (prodSel false (sel true ds k1s) keep2), ∑ r ∈ range (prodSel false ds k1s),
+              g (q * prodDims ds + ptIndex ds k1s (ptIndex (sel true ds k1s) keep2 a t2) r)
+                (q * prodDims ds + ptIndex ds k1s (ptIndex (sel true ds k1s) keep2 b t2) r) := by
+          intro q _
+          rw [← ih k1s keep2 hl1 h2 (fun x y => g (q * prodDims ds + x) (q * prodDims ds + y)) a b ha hb]
+          refine sum_congr rfl fun r hr => ?_
+          have hr' := mem_range.1 hr
+          simp only [ptIndex, Bool.false_eq_true, if_false, div_of_lt hr', mod_of_lt hr']
+        rw [sum_congr rfl hL, sum_comm]
+        refine sum_congr rfl fun t2 _ => ?_
+        rw [sum_range_mul]
+        refine sum_congr rfl fun q _ => sum_congr rfl fun r hr => ?_
+        have hr' := mem_range.1 hr
+        simp only [ptIndex, Bool.false_eq_true, if_false, div_of_lt hr', mod_of_lt hr']
+      · -- axis kept in the first step
+        have hsel : sel true (d :: ds) (true :: k1s) = d :: sel true ds k1s := by simp [sel]
+        rw [hsel] at h2 ha hb ⊢
+        cases keep2 with
+        | nil => simp at h2
+        | cons k2 k2s =>
+          have hl2 : (sel true ds k1s).length = k2s.length := by simpa using h2
+          have hcm : composeMask (true :: k1s) (k2 :: k2s) = k2 :: composeMask k1s k2s := by simp [composeMask]
+          rw [hcm]
+          have hPS : prodSel true ds k1s = prodDims (sel true ds k1s) := prodSel_eq_prodDims_sel _ _ _
+          cases k2
+          · -- traced in the second step
+            simp only [prodSel, Bool.false_eq_true, Bool.true_eq_false, if_false, if_true, one_mul] at ha hb ⊢
+            rw [sum_range_mul, sum_range_mul]
+            refine sum_congr rfl fun q _ => ?_
+            have := ih k1s k2s hl1 hl2 (fun x y => g (q * prodDims ds + x) (q * prodDims ds + y)) a b ha hb
+            refine Eq.trans (Eq.trans (sum_congr rfl fun r hr => ?_) this) (sum_congr rfl fun r2 hr2 => sum_congr rfl fun t1 _ => ?_)
+            · have hr' := mem_range.1 hr
+              simp only [ptIndex, Bool.false_eq_true, if_false, div_of_lt hr', mod_of_lt hr']
+            · have hr' := mem_range.1 hr2
+              have hia := ptIndex_lt (sel true ds k1s) k2s hl2 a r2 ha hr'
+              have hib := ptIndex_lt (sel true ds k1s) k2s hl2 b r2 hb hr'
+              simp only [ptIndex, Bool.false_eq_true, if_false, if_true, div_of_lt hr', mod_of_lt hr', hPS,
+                div_of_lt hia, mod_of_lt hia, div_of_lt hib, mod_of_lt hib]
+          · -- kept in both steps
+            simp only [prodSel, Bool.false_eq_true, Bool.true_eq_false, if_false, if_true, one_mul] at ha hb ⊢
+            have hpos : 0 < prodSel true (sel true ds k1s) k2s := Nat.pos_of_ne_zero (by rintro h; simp [h] at ha)
+            have ha' := Nat.mod_lt a hpos
+            have hb' := Nat.mod_lt b hpos
+            have hpc := prodSel_compose ds k1s k2s
+            have := ih k1s k2s hl1 hl2
+              (fun x y => g (a / prodSel true (sel true ds k1s) k2s * prodDims ds + x)
+                (b / prodSel true (sel true ds k1s) k2s * prodDims ds + y))
+              (a % prodSel true (sel true ds k1s) k2s) (b % prodSel true (sel true ds k1s) k2s) ha' hb'
+            refine Eq.trans (Eq.trans (sum_congr rfl fun r _ => ?_) this) (sum_congr rfl fun r2 hr2 => sum_congr rfl fun t1 _ => ?_)
+            · simp only [ptIndex, if_true, hpc]
+            · have hr' := mem_range.1 hr2
+              have hia := ptIndex_lt (sel true ds k1s) k2s hl2 _ r2 ha' hr'
+              have hib := ptIndex_lt (sel true ds k1s) k2s hl2 _ r2 hb' hr'
+              simp only [ptIndex, if_true, hPS, div_of_lt hia, mod_of_lt hia, div_of_lt hib, mod_of_lt hib]
+
+theorem foldl_ite_add {M : Type*} [AddCommMonoid M] {β : Type*} (es : List β) (p : β → Prop) [DecidablePred p]
+    (v : β → M) (init : M) :
+    es.foldl (fun acc e => if p e then acc + v e else acc) init
+      = init + (es.map fun e => if p e then v e else 0).sum := by
+  induction es generalizing init with
+  | nil => simp
+  | cons e es ih =>
+    simp only [List.foldl_cons, List.map_cons, List.sum_cons, ih]
+    split <;> simp [add_assoc]
+
+theorem sparse_single {M : Type*} [AddCommMonoid M] (dims : List ℕ) (keep : List Bool) (hlen : dims.length = keep.length)
+    (x y : ℕ) (v : M) (hx : x < prodDims dims) (hy : y < prodDims dims) (a b : ℕ)
+    (ha : a < prodSel true dims keep) (hb : b < prodSel true dims keep) :
+    ∑ t ∈ range (prodSel false dims keep), (if x = ptIndex dims keep a t ∧ y = ptIndex dims keep b t then v else 0)
+      = if part true dims keep x = a ∧ part true dims keep y = b ∧ part false dims keep x = part false dims keep y
+        then v else 0 := by
+  by_cases hC : part true dims keep x = a ∧ part true dims keep y = b ∧ part false dims keep x = part false dims keep y
+  · rw [if_pos hC]
+    obtain ⟨hxa, hyb, hxy⟩ := hC
+    have ht0 := part_lt false dims keep hlen x hx
+    rw [sum_eq_single (part false dims keep x)]
+    · have e1 := ptIndex_part dims keep hlen x hx
+      have e2 := ptIndex_part dims keep hlen y hy
+      rw [hxa] at e1; rw [hyb, ← hxy] at e2
+      rw [if_pos ⟨e1.symm, e2.symm⟩]
+    · intro t ht hne
+      rw [if_neg]
+      rintro ⟨h, _⟩
+      have := (part_ptIndex dims keep hlen a t ha (mem_range.1 ht)).2
+      rw [← h] at this; exact hne this.symm
+    · intro h; exact absurd (mem_range.2 ht0) h
+  · rw [if_neg hC]
+    refine sum_eq_zero fun t ht => ?_
+    rw [if_neg]
+    rintro ⟨h1, h2⟩
+    have p1 := part_ptIndex dims keep hlen a t ha (mem_range.1 ht)
+    have p2 := part_ptIndex dims keep hlen b t hb (mem_range.1 ht)
+    rw [← h1] at p1; rw [← h2] at p2
+    exact hC ⟨p1.1, p2.1, p1.2.trans p2.2.symm⟩
+
+theorem sparse_eq {M : Type} [AddCommMonoid M] (dims : List ℕ) (keep : List Bool) (hlen : dims.length = keep.length)
+    (es : List (ℕ × ℕ × M)) (hes : ∀ e ∈ es, e.1 < prodDims dims ∧ e.2.1 < prodDims dims) (a b : ℕ)
+    (ha : a < prodSel true dims keep) (hb : b < prodSel true dims keep) :
+    partialTraceSparse dims keep es a b = partialTrace dims keep (denseOf es) a b := by
+  simp only [partialTraceSparse, partialTrace, denseOf, sumRange_eq_sum]
+  rw [foldl_ite_add es (fun e => part true dims keep e.1 = a ∧ part true dims keep e.2.1 = b
+        ∧ part false dims keep e.1 = part false dims keep e.2.1) (fun e => e.2.2), zero_add]
+  have : ∀ t, List.foldl (fun acc (e : ℕ × ℕ × M) =>
+        if e.1 = ptIndex dims keep a t ∧ e.2.1 = ptIndex dims keep b t then acc + e.2.2 else acc) 0 es
+      = (es.map fun e => if e.1 = ptIndex dims keep a t ∧ e.2.1 = ptIndex dims keep b t then e.2.2 else 0).sum := by
+    intro t
+    rw [foldl_ite_add es (fun e => e.1 = ptIndex dims keep a t ∧ e.2.1 = ptIndex dims keep b t) (fun e => e.2.2), zero_add]
+  simp only [this]
+  clear this
+  induction es with
+  | nil => simp
+  | cons e es ih =>
+    have he := hes e (List.mem_cons_self ..)
+    simp only [List.map_cons, List.sum_cons, sum_add_distrib]
+    rw [← ih (fun e' h' => hes e' (List.mem_cons_of_mem _ h'))]
+    rw [sparse_single dims keep hlen e.1 e.2.1 e.2.2 he.1 he.2 a b ha hb]
+
 end PT
 end Numqi
